@@ -17,6 +17,7 @@ import (
 	"reflect"
 	"strings"
 	"sync"
+	"sync/atomic"
 	"time"
 
 	"github.com/xelaj/mtproto"
@@ -92,6 +93,15 @@ func init() {
 			}
 		}()
 		must(m.CreateConnection())
+		// for methods with a vector result the sender is held for a moment right after its write, so that the answer is
+		// read and dispatched before the sender leaves the send section (a fast server, a descheduled sender)
+		var holdSender int32
+		mtproto.VerifGate = func(point string, args ...interface{}) {
+			if point == "send.written" && atomic.LoadInt32(&holdSender) == 1 {
+				time.Sleep(25 * time.Millisecond)
+			}
+		}
+		defer func() { mtproto.VerifGate = nil }()
 		client := &telegram.Client{MTProto: m}
 		cv := reflect.ValueOf(client)
 		rep := NewReport()
@@ -144,6 +154,11 @@ func init() {
 			// every method with a vector result, and every seventh other one, meets a salt rotation on its first attempt
 			rejectOnce = c.ResKind == "vec" || rep.Evaluations%7 == 0
 			mu.Unlock()
+			if c.ResKind == "vec" {
+				atomic.StoreInt32(&holdSender, 1)
+			} else {
+				atomic.StoreInt32(&holdSender, 0)
+			}
 			for len(gotCh) > 0 {
 				<-gotCh
 			}
